@@ -17,6 +17,7 @@ import (
 
 	"github.com/canopy-network/canopy/lib"
 	"github.com/canopy-network/canopy/lib/crypto"
+	"github.com/drand/kyber"
 
 	"verifharness/drv"
 )
@@ -285,7 +286,20 @@ func alterResults(res *lib.CertificateResult, k int, chain uint64) (*lib.Certifi
 
 // sign aggregates the signatures of the chosen member indices of committee c over the given payload
 func sign(c *committee, idxs []int, payload []byte) (sig []byte, bitmap []byte) {
-	mk := c.vs.MultiKey.Copy()
+	// the signers' own multi-key: every member of the list, in list order - built here from the public keys and
+	// NOT taken from the validator set under test (an aggregator is free to use any layout; only this one may verify)
+	var pts []kyber.Point
+	for _, m := range c.ms {
+		pt, e := crypto.BytesToBLS12381Point(m.key.PublicKey().Bytes())
+		if e != nil {
+			panic(e)
+		}
+		pts = append(pts, pt)
+	}
+	mk, e := crypto.NewMultiBLSFromPoints(pts, nil)
+	if e != nil {
+		panic(e)
+	}
 	for _, i := range idxs {
 		if err := mk.AddSigner(c.ms[i].key.Sign(payload), i); err != nil {
 			panic(err)
@@ -330,7 +344,21 @@ func Run(o *drv.Out) {
 		}
 		// the first cases are small committees at the arithmetic edges of the threshold: total power
 		// congruent to 0, 1 and 2 mod 3, where floor(2T/3)+1 and other plausible formulas differ
-		if boundary := [][]uint64{{2, 2, 1}, {1, 1, 1}, {2, 1, 1}, {1, 1}, {3, 3, 2}, {5, 4, 3, 2}, {7, 7, 7, 1, 1}, {1}}; ci < len(boundary) {
+		// members without voting power stay in the list (and in the bitmap's index space)
+		if nm > 1 && r.Intn(4) == 0 {
+			for k := 0; k < 1+r.Intn(2); k++ {
+				powers[r.Intn(nm)] = 0
+			}
+			var t uint64
+			for _, p := range powers {
+				t += p
+			}
+			if t == 0 {
+				powers[r.Intn(nm)] = 1
+			}
+			o.Count("committee:zero-power-member")
+		}
+		if boundary := [][]uint64{{2, 2, 1}, {1, 1, 1}, {2, 1, 1}, {1, 1}, {3, 3, 2}, {5, 4, 3, 2}, {7, 7, 7, 1, 1}, {1}, {0, 70, 30}, {1, 0, 1, 0, 1}, {0, 0, 5, 0}}; ci < len(boundary) {
 			powers = boundary[ci]
 			nm = len(powers)
 		}
@@ -388,7 +416,7 @@ func Run(o *drv.Out) {
 			signCom := com
 			// deviations applied BEFORE signing (honest signers sign the deviated content: still "correctly bound")
 			// and AFTER signing (re-targeting). Choose by variant.
-			dev := r.Intn(29)
+			dev := r.Intn(30)
 			dupHeader := false
 			if v == 0 {
 				dev = -1 // the valid pair itself
@@ -422,6 +450,9 @@ func Run(o *drv.Out) {
 					}
 				}
 				return nil, false
+			}
+			if v == 5 {
+				dev = 29 // always: aggregated under another key layout of the same members (bits name other members)
 			}
 			if v == 4 {
 				dev = 28 // always: the carried results differ from the signed ones in exactly one field
@@ -465,6 +496,55 @@ func Run(o *drv.Out) {
 					// leader's PRECOMMIT message; applyPost re-labels it PRECOMMIT_VOTE after signing
 					view.Phase = lib.Phase_PROPOSE_VOTE
 					notes = append(notes, "relabel-phase")
+				case 29:
+					// the aggregator's layout: the committee list with the zero-power members (or, if there is none,
+					// one random member) left out, or two neighbours swapped; signers are chosen in that layout so that
+					// the SAME bit positions, read in the committee's own index space, add up to the threshold
+					if nm < 2 {
+						notes = append(notes, "foreign-layout-impossible")
+						break
+					}
+					var lay []int
+					switch r.Intn(3) {
+					case 0, 1:
+						drop := map[int]bool{}
+						for i, p := range powers {
+							if p == 0 {
+								drop[i] = true
+							}
+						}
+						if len(drop) == 0 {
+							drop[r.Intn(nm)] = true
+						}
+						for i := 0; i < nm; i++ {
+							if !drop[i] {
+								lay = append(lay, i)
+							}
+						}
+						notes = append(notes, "foreign-layout:dropped-members")
+					default:
+						for i := 0; i < nm; i++ {
+							lay = append(lay, i)
+						}
+						k := r.Intn(nm - 1)
+						lay[k], lay[k+1] = lay[k+1], lay[k]
+						notes = append(notes, "foreign-layout:swapped-neighbours")
+					}
+					sub := &committee{}
+					for _, i := range lay {
+						sub.ms = append(sub.ms, com.ms[i])
+					}
+					signCom = sub
+					// positions (in the foreign layout) whose committee-space powers reach the threshold
+					idxs = nil
+					var s uint64
+					for pos := range lay {
+						if s >= maj {
+							break
+						}
+						idxs = append(idxs, pos)
+						s += powers[pos]
+					}
 				case 2:
 					hdr.ProposerAddress = hdr.ProposerAddress[:19]
 					blkHeaderOK = false
